@@ -493,7 +493,11 @@ func (s *Session) hostInfoFromMap(row map[string]interface{}, host *HostInfo) (*
 			if !ok {
 				return nil, fmt.Errorf(assertErrorMsg, "host_id")
 			}
-			host.hostId = hostId.String()
+			// a NULL host_id cell is scanned into the zero UUID: leave the host id empty then, so that
+			// isValidPeer rejects the row instead of accepting a node "00000000-0000-0000-0000-000000000000"
+			if hostId != (UUID{}) {
+				host.hostId = hostId.String()
+			}
 		case "release_version":
 			version, ok := value.(string)
 			if !ok {
